@@ -156,6 +156,7 @@ type c10Hist struct {
 	script      []c10Scripted
 	cfgRejected bool
 	nRestartBad int
+	nOfferOnly  int
 }
 
 const (
@@ -204,7 +205,7 @@ func TestVerifC10(t *testing.T) {
 			t.Fatal(err)
 		}
 	}()
-	rep.Assume("offers (leases never acknowledged) are reclaimable at once; an address only offered to another client does not oblige the server to refuse or to offer it")
+	rep.Assume("an address that was only offered (never acknowledged) is neither leased nor reserved: it counts as free for the DISCOVER of a new client")
 	rep.Assume("virtual clock moves in whole seconds, so RFC 3339 expiry strings in leases.json are exact")
 
 	base, err := os.MkdirTemp(c10Scratch(), "verif-c10-")
@@ -270,6 +271,9 @@ func TestVerifC10(t *testing.T) {
 		if h.nRestartBad > 0 {
 			rep.Class("histories_with_unreadable_db_restart")
 		}
+		if h.nOfferOnly > 0 {
+			rep.Class("histories_with_pool_covered_by_offers_and_leases")
+		}
 		if i < 2 {
 			rep.Sample(map[string]any{"config": h.cfg, "steps": h.trace})
 		}
@@ -278,6 +282,7 @@ func TestVerifC10(t *testing.T) {
 	for _, ev := range []string{"reply:ack", "reply:offer", "discover_refused_pool_exhausted", "restarts",
 		"static_op_rejected", "static_op_accepted", "db_entries_crossing_restart", "acked_leases_expired",
 		"address_reused_after_expiry_or_release", "restart_unreadable_db_steps",
+		"new_client_served_while_only_offered_addresses_were_free",
 		"requested_lease_time_shorter_than_configured", "step:" + c10HTTPStatus, "step:" + c10HTTPResetLeases,
 		"step:" + c10HTTPSetConfig, "step:" + c10HTTPReset, "http:/control/dhcp/add_static_lease",
 		"http:/control/dhcp/remove_static_lease", "http:/control/dhcp/update_static_lease"} {
@@ -1361,6 +1366,11 @@ func (h *c10Hist) doDiscover(mac net.HardwareAddr, reqIP netip.Addr, host string
 
 	switch {
 	case typ == "offer" && yi.IsValid():
+		if !reserved && !known && len(free) == 0 && len(freeIgnoringOffers) > 0 {
+			// Served although every unleased address was on offer to others.
+			h.nOfferOnly++
+			h.rep.Event("new_client_served_while_only_offered_addresses_were_free")
+		}
 		h.grant("offer", ms, yi)
 		if !known {
 			h.rep.Event("offer_to_new_client")
@@ -1388,7 +1398,25 @@ func (h *c10Hist) doDiscover(mac net.HardwareAddr, reqIP netip.Addr, host string
 				fmt.Sprintf("DISCOVER from %s answered with %q although %v is neither leased, reserved nor offered to anybody", ms, typ, c10Strs(free)),
 				map[string]any{"free": c10Strs(free), "internal_table": h.internalDump()})
 		case len(freeIgnoringOffers) > 0:
-			h.rep.Unspec("DISCOVER refused while the only unleased addresses are offered to other clients")
+			// An address that was only offered is neither leased nor reserved:
+			// the offer was never acknowledged, the client it went to holds
+			// nothing (and is NAKed should it still ask for the address).
+			class := "only-offered-addresses-free"
+			if known {
+				class += ":returning-client"
+			}
+			var offers []string
+			for m2, o := range h.offer {
+				if m2 != ms {
+					offers = append(offers, m2+" "+o.String())
+				}
+			}
+			sort.Strings(offers)
+			h.viol("discover-unanswered-with-free-address:"+class,
+				fmt.Sprintf("DISCOVER from %s answered with %q although %v is neither leased (acknowledged and unexpired) nor reserved, only offered to other clients at some earlier time",
+					ms, typ, c10Strs(freeIgnoringOffers)),
+				map[string]any{"free_but_once_offered": c10Strs(freeIgnoringOffers), "outstanding_offers": offers,
+					"internal_table": h.internalDump()})
 		default:
 			h.nExhaust++
 			h.rep.Event("discover_refused_pool_exhausted")
